@@ -5,11 +5,16 @@ open Common
 
 theorem rdLE_leN1 (b : Nat) (h : b < 256) : rdLE (leN 1 b) = b := rdLE_leN 1 b (by simpa using h)
 
+theorem unitCodec_ok : CodecOK unitCodec where
+  rt := by intro x hx; cases hx; rfl
+  len := by intro x _; rfl
+
 theorem fixCodec_ok : CodecOK fixCodec where
   rt := by
     intro x hx
     cases x with
     | var tag bytes name => exact absurd hx (by simp [fixCodec])
+    | unit => exact absurd hx (by simp [fixCodec])
     | fix a b =>
       have ha : a < 256 ^ 2 := by have := hx.1; omega
       have hb : b < 256 ^ 1 := by have := hx.2; omega
@@ -27,6 +32,7 @@ theorem varCodec_ok : CodecOK varCodec where
     intro x hx
     cases x with
     | fix a b => exact absurd hx (by simp [varCodec])
+    | unit => exact absurd hx (by simp [varCodec])
     | var tag bytes name =>
       obtain ⟨_, hb, hn, hu⟩ := hx
       have hb' : bytes.length < 256 ^ 4 := by omega
